@@ -53,7 +53,7 @@ class DPT2ByteSigned(DPTNumeric):
                 raise ValueError("Value out of range")
             knx_value = round(float_value / cls.resolution)
             return DPTArray(struct.pack(cls._struct_format, knx_value))
-        except (ValueError, OverflowError, struct.error) as err:
+        except (ValueError, TypeError, OverflowError, struct.error) as err:
             raise ConversionError(
                 f"Could not serialize {cls.dpt_name()}", value=value
             ) from err
